@@ -163,6 +163,25 @@ fn misdeclared_guard(rng: &mut Rng) -> (T, T) {
     (call(36, vec![quote(int(declared as i128)), quote(int(ext)), quote(body), quote(atom(&[]))]), T::nil())
 }
 
+/// BLS operators of the standard table applied to *valid* points (computed inside the program by
+/// pubkey_for_exp / g2_map): operators with identical costs and validation (g2_add / g2_subtract, g1 …)
+/// can only be told apart by the resulting point
+fn bls_valid_program(rng: &mut Rng) -> (T, T) {
+    let g1 = |rng: &mut Rng| call(30, vec![quote(int(rng.range(1, 1000) as i128))]);
+    let g2 = |rng: &mut Rng| call(57, vec![quote(T::Atom(rng.bytes(5)))]);
+    let prog = match rng.below(8) {
+        0 => call(52, vec![g2(rng), g2(rng)]),
+        1 => call(53, vec![g2(rng), g2(rng)]),
+        2 => call(52, vec![g2(rng), g2(rng), g2(rng)]),
+        3 => call(49, vec![g1(rng), g1(rng)]),
+        4 => call(29, vec![g1(rng), g1(rng)]),
+        5 => call(54, vec![g2(rng), quote(int(rng.range(-5, 50) as i128))]),
+        6 => call(50, vec![g1(rng), quote(int(rng.range(-5, 50) as i128))]),
+        _ => call(55, vec![call(53, vec![g2(rng), g2(rng)])]),
+    };
+    (prog, T::nil())
+}
+
 /// 4-byte operators around the secp256k1/secp256r1 opcodes (same cost multiplier, every value of the
 /// last byte's cost-function and padding bits) on valid and corrupted signature triples
 pub fn secp4_program(rng: &mut Rng) -> (T, T) {
@@ -262,12 +281,14 @@ pub fn oracle(name: &str, rng: &mut Rng, n: usize, tier: &str) -> OracleReport {
             let l = &lines[rng.below(lines.len() as u64) as usize];
             let w: Vec<&str> = l.split(' ').collect();
             (trees::from_hex(w[6]).unwrap(), T::nil())
-        } else if name == "repr" && i % 4 == 3 {
+        } else if (name == "repr" && i % 4 == 3) || (name == "total" && i % 5 == 4) {
             gc_pair_program(rng)
         } else if name == "hide" && i % 5 == 3 {
             exact_guard(rng)
         } else if name == "repr" && i % 4 == 2 {
             progs::random_path_program(rng)
+        } else if name == "runtime" && i % 4 == 1 {
+            bls_valid_program(rng)
         } else if name == "hide" && i % 5 == 1 {
             secp4_program(rng)
         } else if name == "hide" && i % 5 == 2 {
@@ -280,6 +301,7 @@ pub fn oracle(name: &str, rng: &mut Rng, n: usize, tier: &str) -> OracleReport {
         }
         let flags = match name {
             "repr" if i % 4 == 3 => random_flags(rng) | ENABLE_GC,
+            "total" if i % 5 == 4 => random_flags(rng) | ENABLE_GC,
             "hide" if i % 5 == 3 => 0, // exact_guard() declares the cost for default flags
             "hide" => (random_flags(rng) & !(NO_UNKNOWN_OPS | NEW_COST_MODEL)) | if i % 5 == 2 && i % 2 == 0 { 0x100 } else { 0 },
             "runtime" => random_flags(rng) & !(ENABLE_GC | DISABLE_OP),
@@ -493,6 +515,14 @@ pub fn oracle(name: &str, rng: &mut Rng, n: usize, tier: &str) -> OracleReport {
                 }
             }
             "total" => {
+                // … in an allocator with a history (earlier runs, unrelated atoms and pairs)
+                if i % 5 >= 3 {
+                    if let Err((k, m)) = run_with_history(rng, flags, &prog, &env) {
+                        if k == "PANIC" || k == "InternalError" {
+                            rep.fail("total", format!("{} after an allocator history -> {} {}", d(), k, m));
+                        }
+                    }
+                }
                 for b in [1u64, 100, 5000] {
                     let o = run_full("chia", flags, b, &prog, &env, "");
                     if is_internal(&o) {
@@ -632,6 +662,28 @@ fn guard_for(flags: u32, ext: i128, body: &T) -> Option<(T, u64)> {
 /// C31: guards yield nil, are isolated (counts), consume their declared cost; nesting limit
 pub fn oracle_guards(rng: &mut Rng, n: usize, _tier: &str) -> OracleReport {
     let mut rep = OracleReport::default();
+    // a guard with a known extension consumes *exactly* its declared cost: a declared cost that is off by
+    // any amount must not complete (old cost model; under NEW_COST_MODEL extensions 0/1 are exempt)
+    for i in 0..n.min(200) {
+        let flags = (random_flags(rng) & !(NO_UNKNOWN_OPS | NEW_COST_MODEL)) | if i % 2 == 0 { 0x100 } else { 0 };
+        let body = match i % 3 {
+            0 => quote(int(42)),
+            1 => call(16, vec![quote(int(1)), quote(int(2))]),
+            _ => call(11, vec![quote(atom(b"abc"))]),
+        };
+        for ext in [0i128, 1] {
+            let Some((_, exact)) = guard_for(flags, ext, &body) else { continue };
+            for delta in [-20i64, -1, 1, 7, 1000] {
+                let declared = (exact as i64 + delta) as u64;
+                let g = call(36, vec![quote(int(declared as i128)), quote(int(ext)), quote(body.clone()), quote(atom(&[]))]);
+                let o = run_full("chia", flags, 0, &g, &T::nil(), "");
+                rep.evaluations += 1;
+                if o.res.is_ok() {
+                    rep.fail("guard_exact_cost", format!("{} completes although its declared cost {} is not the body's cost {} -> {:?}", desc(&g, &T::nil(), flags), declared, exact, o.res));
+                }
+            }
+        }
+    }
     for i in 0..n {
         let flags = random_flags(rng) & !NO_UNKNOWN_OPS;
         let (body, _) = random_program(rng, 15, false);
